@@ -123,7 +123,7 @@ def in3_handles_stay_home(ctx, rep):
     R = "IN3"
     A = ctx.A
     # channeled wrapper and iterator feeder hold only their own channel
-    for meth, fam in (("subscribed_with", "ChanneledSubscriber"), ("iter_with", "StateIteratorSubscriber")):
+    for meth, fam in (("subscribed_with", A.name_of(A.channeled_adt)), ("iter_with", A.name_of(A.feeder_adt))):
         try:
             m = A.method("StoreImpl", meth)
         except AnchorMissing:
